@@ -452,7 +452,7 @@ func (r *Ref) resolveTypedef(td *ymodel.Typedef, s Scope) *XType {
 	if x != nil {
 		x = x.clone()
 		x.Name = td.Name
-		if td.Units != "" {
+		if td.Units != "" || td.EmptyUnits {
 			x.Units = td.Units
 		}
 		if td.Default != nil {
